@@ -254,9 +254,10 @@ def Binomial.findExt (cmp : K → K → Int) : List (Tree K V) → Option (List 
 def Binomial.insert (cmp : K → K → Int) (h : Binomial K V) (key : K) (val : V) : Binomial K V :=
   { n := h.n + 1, head := Binomial.union cmp h.head [Tree.leaf key val] }
 
-/-- `h.Merge(hh)` -/
-def Binomial.mergeWith (cmp : K → K → Int) (h hh : Binomial K V) : Binomial K V :=
-  { n := h.n + hh.n, head := Binomial.union cmp h.head hh.head }
+/-- `h.Merge(hh)` for `hh != h`: `h.head = h.union(h.head, hh.head); h.n += hh.n; hh.head, hh.n = nil, 0`.
+Returns the receiver and the operand after the call. -/
+def Binomial.mergeWith (cmp : K → K → Int) (h hh : Binomial K V) : Binomial K V × Binomial K V :=
+  ({ n := h.n + hh.n, head := Binomial.union cmp h.head hh.head }, { n := 0, head := [] })
 
 def Binomial.delete (cmp : K → K → Int) (h : Binomial K V) : Binomial K V × Option (K × V) :=
   match Binomial.findExt cmp h.head with
@@ -447,14 +448,19 @@ def meld (l1 l2 : List (Tree K V)) : List (Tree K V) :=
   | l1, [] => l1
   | l1, b :: r2 => l1 ++ r2 ++ [b]
 
-/-- `Merge`: `h.meld(h.ext, hh.ext); h.ext = h.pickExt(h.ext, hh.ext); h.n += hh.n` -/
-def Fib.mergeWith (cmp : K → K → Int) (h hh : Fib K V) : Fib K V :=
-  match h.roots, hh.roots with
-  | [], l2 => { n := h.n + hh.n, roots := l2 }
-  | l1, [] => { n := h.n + hh.n, roots := l1 }
+/-- the root list read from `h.ext` after `h.meld(h.ext, hh.ext); h.ext = h.pickExt(h.ext, hh.ext)` -/
+def Fib.mergeRoots (cmp : K → K → Int) (l1 l2 : List (Tree K V)) : List (Tree K V) :=
+  match l1, l2 with
+  | [], l2 => l2
+  | l1, [] => l1
   | a :: r1, b :: r2 =>
-    if cmp a.key b.key ≤ 0 then { n := h.n + hh.n, roots := (a :: r1) ++ r2 ++ [b] }
-    else { n := h.n + hh.n, roots := b :: ((a :: r1) ++ r2) }
+    if cmp a.key b.key ≤ 0 then (a :: r1) ++ r2 ++ [b]
+    else b :: ((a :: r1) ++ r2)
+
+/-- `h.Merge(hh)` for `hh != h`: `h.meld(h.ext, hh.ext); h.ext = h.pickExt(h.ext, hh.ext); h.n += hh.n;
+hh.ext, hh.n = nil, 0`.  Returns the receiver and the operand after the call. -/
+def Fib.mergeWith (cmp : K → K → Int) (h hh : Fib K V) : Fib K V × Fib K V :=
+  ({ n := h.n + hh.n, roots := Fib.mergeRoots cmp h.roots hh.roots }, { n := 0, roots := [] })
 
 def Fib.delete (cmp : K → K → Int) (h : Fib K V) : Outcome (Fib K V × Option (K × V)) :=
   match h.roots with
